@@ -121,6 +121,115 @@ func fullEvent(r *hlib.Rand) string {
 	return s
 }
 
+// ---------------------------------------------------------------------------------------
+// boundary numerals (stream "numeral"): strings on which a hand-written number parser and
+// strconv.ParseFloat are most likely to differ.  The oracle table decides what is right.
+
+var numeralCores = []string{
+	"9007199254740991", "9007199254740992", "9007199254740993", "9007199254740994", // 2^53
+	"2147483647", "2147483648", "4294967295", "4294967296", "4294967297",
+	"9223372036854775806", "9223372036854775807", "9223372036854775808", "9223372036854775809", // 2^63
+	"18446744073709551614", "18446744073709551615", "18446744073709551616", "18446744073709551617", // 2^64
+	"18446744073709551625", "18446744073709552000", "1844674407370955161", "184467440737095516150", "36893488147419103232",
+	"9999999999999999999", "10000000000000000000", "10000000000000000001", // 10^19
+	"19999999999999999999", "20000000000000000000", "20000000000000000001", "27670116110564327424",
+	"99999999999999999999", "100000000000000000000", "100000000000000000001", // 10^20
+	"123456789012345678901234567890", "340282366920938463463374607431768211456",
+}
+
+var specialNumerals = []string{
+	"1e308", "1e309", "-1e309", "1.7976931348623157e308", "1.7976931348623158e308", "1.7976931348623159e308", "17976931348623157e292",
+	"1e-323", "1e-324", "4.9e-324", "5e-324", "2.4703282292062327e-324", "2.4703282292062328e-324", "1e-400", "-1e-400", "1e400", "1e+19", "1e19", "1e20", "2e19", "1.8446744073709551616e19",
+	"0x1p-1074", "0x1p-1075", "0x1p1023", "0x1p1024", "0x1.fffffffffffffp1023", "0x1.fffffffffffff8p1023", "0x10000000000000000p0", "0xffffffffffffffffp0", "0X1P+4", "0x1p", "0x1", "0x.8p1", "0x1_0p0", "0x_1p0", "0b1", "0o7", "1_000", "1__0", "_1", "1_",
+	"inf", "Inf", "INF", "iNf", "+inf", "-Inf", "+INF", "infinity", "Infinity", "INFINITY", "+infinity", "-iNfInItY", "infinit", "infinityx", "in", "i",
+	"nan", "NaN", "NAN", "nAn", "+nan", "-nan", "+NaN", "nan0", "na", "n",
+	".", "+", "-", "+.", "e", "e0", ".e0", "0e", "0e+", "1e+", "1E-", "+-1", "-+1", "++1", "1.2.3", "1e2e3", "1e2.5", "0x", "٣", "１", "1,5", "1 5",
+}
+
+func digitsN(r *hlib.Rand, n int) string {
+	b := make([]byte, n)
+	for i := range b {
+		b[i] = byte('0' + r.Intn(10))
+	}
+	if n > 0 && b[0] == '0' && r.Bool() {
+		b[0] = byte('1' + r.Intn(9))
+	}
+	return string(b)
+}
+
+// BoundaryNumeral draws one numeral string.
+func boundaryNumeral(r *hlib.Rand) string {
+	var core string
+	switch k := r.Intn(20); {
+	case k < 8:
+		core = hlib.Pick(r, numeralCores)
+	case k < 11:
+		core = digitsN(r, r.Range(15, 25))
+	case k < 12:
+		core = digitsN(r, r.Range(30, 400))
+	case k < 13:
+		core = "1" + strings.Repeat("0", r.Range(15, 25))
+	case k < 14:
+		core = strings.Repeat("9", r.Range(15, 25))
+	case k < 15:
+		core = digitsN(r, r.Range(1, 14))
+	default:
+		s := hlib.Pick(r, specialNumerals)
+		if r.Chance(1, 4) {
+			s = strings.ToUpper(s)
+		}
+		return s
+	}
+	if r.Chance(1, 3) { // leading zeros, possibly enough to cross a length limit
+		z := hlib.Pick(r, []int{1, 1, 2, 3, 5, 20 - len(core), 21 - len(core), 19 - len(core), 40})
+		if z < 1 {
+			z = 1
+		}
+		core = strings.Repeat("0", z) + core
+	}
+	if r.Chance(1, 4) {
+		core = hlib.Pick(r, []string{"+", "-", "+", "-", " ", "+0", "-0"}) + core
+	}
+	if r.Chance(1, 3) {
+		core += hlib.Pick(r, []string{".0", ".", ".00", "e0", "E0", "e+0", "e-0", "e1", "e-1", ".5", ".0e0", "e+19", "e-19", "0", "00", " ", "f", "_0"})
+	}
+	if r.Chance(1, 25) && len(core) > 3 { // a '_' separator inside
+		p := r.Range(1, len(core)-1)
+		core = core[:p] + "_" + core[p:]
+	}
+	return core
+}
+
+func numeralLine(r *hlib.Rand) (string, string) {
+	name := lexgen.RawName(r)
+	ty := hlib.Pick(r, []string{"c", "c", "g", "ms", "h"})
+	switch r.Intn(10) {
+	case 0, 1, 2, 3, 4: // value
+		tail := hlib.Pick(r, []string{"", "", "|@0.5", "|#a,b", "|@1|#t"})
+		return name + ":" + boundaryNumeral(r) + "|" + ty + tail, "numeral-value"
+	case 5, 6: // rate
+		return name + ":" + strconv.Itoa(r.Range(0, 999)) + "|" + ty + hlib.Pick(r, []string{"", "|#a"}) + "|@" + boundaryNumeral(r), "numeral-rate"
+	case 7: // both, and a set member (kept as a string, never converted)
+		if r.Chance(1, 3) {
+			return name + ":" + boundaryNumeral(r) + "|s", "numeral-set"
+		}
+		return name + ":" + boundaryNumeral(r) + "|" + ty + "|@" + boundaryNumeral(r) + "|@" + hlib.Pick(r, []string{"1", "0.5", boundaryNumeral(r)}), "numeral-value-rate"
+	case 8: // event date and ignored numeric fields
+		title, text := lexgen.Tag(r), lexgen.Tag(r)
+		return fmt.Sprintf("_e{%d,%d}:%s|%s|d:%s%s", len(title), len(text), title, text, boundaryNumeral(r),
+			hlib.Pick(r, []string{"", "|T" + boundaryNumeral(r), "|d:" + boundaryNumeral(r)})), "numeral-event-date"
+	default: // event length numerals
+		title, text := lexgen.Tag(r), lexgen.Tag(r)
+		tl, xl := strconv.Itoa(len(title)), strconv.Itoa(len(text))
+		if r.Bool() {
+			tl = boundaryNumeral(r)
+		} else {
+			xl = boundaryNumeral(r)
+		}
+		return "_e{" + tl + "," + xl + "}:" + title + "|" + text, "numeral-event-length"
+	}
+}
+
 func extraLine(r *hlib.Rand) (string, string) {
 	tail := "|" + hlib.Pick(r, []string{"c", "g", "ms", "h", "s"}) + hlib.Pick(r, []string{"", "|@0.5", "|#a,b", "|#a|@0.1"})
 	switch r.Intn(7) {
